@@ -150,7 +150,13 @@ def translator_stage(ctx: Ctx):
     ctx.cov["opaque_context_values"] = opaque[:40]
     for n in notes:
         ctx.trusted.append("translator: " + n)
-    for f in failures:
+    ctx.shape_failures = [f for f in failures if f.get("shape")]
+    for f in ctx.shape_failures:
+        # reported after the witnesses (a failing witness is the concrete input)
+        ctx.obligation(f"shape of the save route: {f['group']}", False, f["why"])
+    if not ctx.shape_failures:
+        ctx.obligation("shape of the save route: children iterate the stored lists, the file is rewritten on every save", True)
+    for f in [f for f in failures if not f.get("shape")]:
         ctx.obligation(f"translate {f['group']} serialisers", False, f["why"])
         ctx.violation(f"serialiser/constructor of group {f['group']} no longer has a shape the translator can model: {f['why']}",
                       {"broken": f"translation of {f['group']}", "why": f["why"]}, {"untranslatable": f["group"]},
